@@ -115,6 +115,10 @@ def run(tier, seed, ck=None):
     ck.ground('C04.Hex', 'Hex() is the hex encoding of exactly the bytes of Encode(), on every path', len(rets) >= 2 and all(
         p['obs']['hex']['elems'] == p['obs']['enc']['elems'] and p['obs']['hex']['label'] == 'hexenc' for p in rets))
     if own:
+        # Decode(Encode(P)) = P composes the encoder specification above with the decoder specification: the decoders' obligations
+        # (C03) are re-proved on the current tree, always at the quick lengths (the round trip only uses lengths 1, 33, 65)
+        from props import C03
+        C03.run('quick', seed, ck)
         # the bytes depend only on the group element, never on how it was computed: no hidden state behind the observers
         from props import hidden
         hf = hidden.run(ck, tier, which=('element',))
